@@ -358,8 +358,18 @@ func (d *Driver) reconcile(e *mc.Env, s *mc.State, step string, wants map[string
 			if hadPrev && obs != prev {
 				// an earlier request with the same id (same requester, same block, other due height) had already
 				// been fulfilled: its number can no longer be read back
-				fs = append(fs, mc.F("C18/number-overwritten/id-shared-by-requests-of-one-requester-in-one-block",
-					"%s: id %s held %s (fulfilled earlier for another request of %s made at height %d); fulfilling the request with interval %d replaced it by %s", step, id, prev, r.Consumer, r.Height, r.N, obs))
+				// (the id scheme hashes height and requester: two requests of one requester made in ONE block share
+				// their id - the recorded finding; requests made in different blocks must not)
+				sig := "C18/number-overwritten/id-shared-by-requests-of-one-requester-in-one-block"
+				otherHeight := r.Height
+				for j := range m.reqs {
+					if j != w.idx && m.reqs[j].ID == id && m.reqs[j].Height != r.Height {
+						sig = "C18/number-overwritten/id-shared-by-requests-made-in-different-blocks"
+						otherHeight = m.reqs[j].Height
+					}
+				}
+				fs = append(fs, mc.F(sig,
+					"%s: id %s held %s (fulfilled earlier for another request of %s, made at height %d); fulfilling the request made at height %d with interval %d replaced it by %s", step, id, prev, r.Consumer, otherHeight, r.Height, r.N, obs))
 			}
 			if obs != w.value {
 				if w.noSeed != "" && obs == w.noSeed {
